@@ -4,7 +4,7 @@
 // oracle channel: (oracle-data "<json>") — consumed by tools/schema_oracle.py (python jsonschema, Draft 2020-12)
 import { A, Atom, show, head, isAtom } from "./sx.mjs";
 import { encVal, decVal, makeBuilder } from "./values.mjs";
-import { genRT, genEnv, member, mutate, registerFormats } from "./mode_rt.mjs";
+import { genRT, genEnv, genDisc, member, mutate, registerFormats } from "./mode_rt.mjs";
 
 const TEMPLATES = [["#/$defs/{name}", "$defs"], ["#/components/schemas/{name}", "schemas"], ["#/definitions/{name}", null], ["urn:x:{name}:{name}", "defs"]];
 function isJson(v) { try { return show(encVal(JSON.parse(JSON.stringify(v)))) === show(encVal(v)) && v !== undefined; } catch { return false; } }
@@ -25,11 +25,17 @@ function gen1(rng, params, mode) {
   const { names, env } = genEnv(rng);
   const nrt = multi ? 1 + rng.below(4) : 1;
   const rts = Array.from({ length: nrt }, () => (multi && names.length && rng.chance(1, 2) ? [A("object"), [[rng.pick(["p", "q"]), [A("ref"), rng.pick(names)]], [rng.pick(["r", "s"]), rng.chance(1, 2) && names.length ? [A("anyof"), [A("ref"), rng.pick(names)], [A("nullish"), "null"]] : genRT(rng, 1, names)]], []] : genRT(rng, 1 + rng.below(3), names)));
+  if (multi && rng.chance(1, 4)) { // two different discriminated unions over the same discriminator and tags in one context
+    const d1 = genDisc(rng, 1, names);
+    const d2 = genDisc(rng, 1, names, { key: d1[2], tags: d1[3].map((m) => m[0]) });
+    rts.splice(0, rts.length >= 2 ? 2 : rts.length, d1, d2);
+  }
+  const nrt2 = rts.length;
   const [tpl, key] = multi ? rng.pick(TEMPLATES) : TEMPLATES[0];
   // an override must be a self-contained schema source: a parser that does not mention any named type
   const selfContained = rts.map((r, i) => i).filter((i) => !show(rts[i]).includes("(ref "));
   const overrides = multi && names.length && selfContained.length && rng.chance(1, 5) ? [[rng.pick(names), A(String(rng.pick(selfContained)))]] : [];
-  const calls = multi ? Array.from({ length: 1 + rng.below(6) }, () => A(String(rng.below(nrt)))) : [A("0")];
+  const calls = multi ? Array.from({ length: 1 + rng.below(6) }, () => A(String(rng.below(nrt2)))) : [A("0")];
   const docs = [];
   for (let i = 0; i < Number(params[0] || 10); i++) {
     let v = i % 3 === 2 ? mutate(rng, member(rng, rts[0], env, 2), 2) : i % 5 === 4 ? randomJson(rng, 2) : member(rng, rts[0], env, 2);
